@@ -113,6 +113,12 @@ def gen_recipes(rng, n):
             out.append({'kind': rng.choice(['edate', 'eomonth']), 's': rdate(rng, True), 'm': C.jenc(mo), 'via': via})
         elif r < 0.8:
             s, e = rdate(rng), rdate(rng)
+            if rng.random() < 0.3:
+                # end-of-month pairs: a start on the 29th..31st against the last day of a shorter month (the day-borrow corner of M / YM / MD)
+                y1, y2 = rng.choice([1999, 2000, 2023, 2024, 2100]), rng.choice([2000, 2023, 2024, 2025, 2100])
+                s = D(y1, rng.choice([1, 3, 5, 7, 8, 10, 12]), rng.choice([29, 30, 31]))
+                m2 = rng.choice([2, 4, 6, 9, 11])
+                e = D(y2, m2, calendar.monthrange(y2, m2)[1])
             if rng.random() < 0.8 and s['dt'] > e['dt']:
                 s, e = e, s
             out.append({'kind': 'datedif', 's': s, 'e': e, 'mode': rng.choice(['D', 'M', 'Y', 'YM', 'MD', 'YD', 'Q']), 'via': via})
